@@ -120,13 +120,16 @@ class EngineC08(HistEngine):
             if ch.chance(1, 5, "interleave"):
                 ops.append({"op": "stmt", "inst": ch.draw(len(insts), "winst"), "code": ch.choice(WARMUP, "warm2")})
         names = sorted({n for c in callers for n in c["uses"]} | {f["name"] for f in funcs} | set(BUNDLED_NAMES))
-        if ch.chance(1, 6, "boundary"):
+        if ch.chance(1, 5, "boundary"):
+            if any(f["kind"] in ("void_write", "ext_write_ret") for f in funcs) and ch.chance(2, 3, "boundary-byref"):
+                # where the order of two pending calls of one block is observable
+                callers.append(g.gen_caller(force_form="two_byref_calls"))
             # the never-reset temporary counter right below a digit roll-over (9/10, 99/100, 999/1000) when the callers are compiled
             target = ch.choice([9, 99, 999], "btarget") - ch.draw(3, "bbelow")
             ops = [dict(gen_call.CallGen.registration(f), op="add_sub", inst=0) for f in funcs]
             ops += [{"op": "insn", "inst": 0, "name": "warm", "parts": [WARMUP_BIG], "via": "transform_insn"}] * (target // 8)
             ops += [{"op": "insn", "inst": 0, "name": "warm", "parts": [WARMUP_ONE], "via": "transform_insn"}] * (target % 8)
-            first = ch.draw(len(callers), "bfirst")
+            first = len(callers) - 1 if callers[-1].get("form") == "two_byref_calls" and ch.chance(2, 3, "byref-first") else ch.draw(len(callers), "bfirst")
             for ci in [first] + [i for i in range(len(callers)) if i != first]:
                 ops.append({"op": "stmt", "inst": 0, "code": callers[ci]["text"], "caller": ci})
             insts = [fmt0]
